@@ -74,8 +74,8 @@ theorem peekNonEmpty_of_pos (p : Params) (h : p.peek = true → ∀ size ∈ p.s
   have h1 := PV.Lemmas.Wrapper.S_lt p hlen
   have h2 := allChunks_length p
   rw [hnil] at h2
-  have h3 : 1 ≤ sizeOf p 0 := by
-    unfold sizeOf nrec at *
+  have h3 : 1 ≤ PV.Wrapper.sizeOf p 0 := by
+    unfold PV.Wrapper.sizeOf nrec at *
     cases hs : p.sizes with
     | nil => rw [hs] at hlen; simp at hlen
     | cons a t => have := h hpk a (by rw [hs]; simp); simpa using this
@@ -114,6 +114,7 @@ theorem never_fails_corrected (p : Params) (hp : Good p) (hz : PeekNonEmpty p) (
 /-- Every execution is finite: a natural-number measure strictly decreases with every step. -/
 theorem terminates (p : Params) (hp : Good p) :
     ∃ μ : State → Nat, ∀ s l s', Reachable p s → step p s l = some s' → μ s' < μ s :=
+  have _ := hp  -- not needed: the measure decreases on every step of every parameter set
   ⟨PV.Lemmas.Wrapper.mu p, fun _ _ _ _ hs => PV.Lemmas.Wrapper.mu_decreases hs⟩
 
 /-- No shift: the answers the collector consumes are, at every moment, a prefix of all chunks in
@@ -121,12 +122,14 @@ theorem terminates (p : Params) (hp : Good p) :
     k-th chunk — and the records are emitted in input order. -/
 theorem collector_in_order (p : Params) (hp : Good p) (s : State) (hr : Reachable p s) :
     s.got <+: allChunks p ∧ s.out <+: List.range (nrec p) ∧ s.cRead <+: allChunks p := by
+  have _ := hp  -- not needed: holds for every parameter set
   have h := PV.Lemmas.Wrapper.inv_reachable hr
   exact ⟨h.got_prefix, h.out_prefix, h.cRead_prefix⟩
 
 /-- In a final state everything was fed to the child and every record was emitted, in order. -/
 theorem final_output_complete (p : Params) (hp : Good p) (s : State) (hr : Reachable p s) (hf : Final p s) :
     s.out = List.range (nrec p) ∧ s.got = allChunks p ∧ s.cRead = allChunks p :=
+  have _ := hp  -- not needed: holds for every parameter set
   (PV.Lemmas.Wrapper.inv_reachable hr).final hf
 
 /-- Visible-event refinement: every concrete step projects to an accepted event of the abstract
@@ -137,6 +140,7 @@ theorem refines (p : Params) (hp : p.Ok) :
         (match project p s l with
          | some e => ∃ a', astep p.enqueueFirst p.poisonFirst a e = some a' ∧ R s' a'
          | none => R s' a) := by
+  have _ := hp  -- not needed: holds for every parameter set
   refine ⟨fun s a => a = PV.Lemmas.Wrapper.absOf p s, (PV.Lemmas.Wrapper.absOf_init p).symm, ?_⟩
   intro s a l s' hr hR hs
   subst hR
@@ -148,7 +152,7 @@ theorem refines (p : Params) (hp : p.Ok) :
     exact ⟨_, h, rfl⟩
   · rename_i he
     rw [he] at h
-    exact h
+    exact (show _ = _ from h).symm
 
 /-- parameters / trace / state witnessing the cache defect. -/
 def dlParams : Params := ⟨[6], 1, 1, 1, false, false, false, fun r _ => r, 0⟩
